@@ -318,7 +318,24 @@ func rxAlt(xs ...*rx) *rx {
 func rxStar(a *rx) *rx { return &rx{kind: '*', a: a, key: "(" + a.key + ")*", null: true} }
 func rxOpt(a *rx) *rx  { return rxAlt(a, rxEps) }
 
-func (r *rx) deriv(c rune) *rx {
+// explicit reports whether some character range at the front of r contains c.
+func (r *rx) explicit(c rune) bool {
+	switch r.kind {
+	case 'c':
+		return r.lo <= c && c <= r.hi
+	case ';':
+		return r.a.explicit(c) || r.a.null && r.b.explicit(c)
+	case '|':
+		return r.a.explicit(c) || r.b.explicit(c)
+	case '*':
+		return r.a.explicit(c)
+	}
+	return false
+}
+
+// deriv is the Brzozowski derivative; `.` follows gocc: in a lexer state it matches exactly the runes that no
+// explicit character (range) of the state matches (ex = c is explicit in the current state).
+func (r *rx) deriv(c rune, ex bool) *rx {
 	switch r.kind {
 	case '0', 'e':
 		return rxEmp
@@ -328,17 +345,20 @@ func (r *rx) deriv(c rune) *rx {
 		}
 		return rxEmp
 	case '.':
+		if ex {
+			return rxEmp
+		}
 		return rxEps
 	case ';':
-		d := rxCat(r.a.deriv(c), r.b)
+		d := rxCat(r.a.deriv(c, ex), r.b)
 		if r.a.null {
-			return rxAlt(d, r.b.deriv(c))
+			return rxAlt(d, r.b.deriv(c, ex))
 		}
 		return d
 	case '|':
-		return rxAlt(r.a.deriv(c), r.b.deriv(c))
+		return rxAlt(r.a.deriv(c, ex), r.b.deriv(c, ex))
 	case '*':
-		return rxCat(r.a.deriv(c), r)
+		return rxCat(r.a.deriv(c, ex), r)
 	}
 	panic("rx.deriv")
 }
@@ -440,8 +460,12 @@ func (s *specLexer) step(st int, c rune) int {
 		return n
 	}
 	v := make([]*rx, len(s.defs))
+	ex := false
+	for _, r := range s.states[st] {
+		ex = ex || r.explicit(c)
+	}
 	for i, r := range s.states[st] {
-		v[i] = r.deriv(c)
+		v[i] = r.deriv(c, ex)
 	}
 	n := s.intern(v)
 	s.trans[st][c] = n
